@@ -127,7 +127,7 @@ impl Client {
     }
     /// The client's own framing, used only to know when to send the next request.
     async fn response(&mut self, is_head: bool) -> Got {
-        let wait = Duration::from_secs(8);
+        let wait = Duration::from_secs(5);
         let head_end = loop {
             if let Some(p) = self.all[self.pos..].windows(4).position(|w| w == b"\r\n\r\n") {
                 break self.pos + p + 4;
